@@ -236,6 +236,7 @@ package ast
 //@   ensures nohole: result.2 == nil ==> result.0 != nil
 //@   ensures index: result.2 == nil ==> okIdx(tokens, token_index, result.1)
 //@   ensures either: result.2 != nil || result.1 < len(tokens)
+//@   ensures leaf: result.2 == nil ==> result.0.Value == tokens[firstSig(tokens, token_index + 1)].Lexeme && !result.0.Not && result.0.Caseless && result.1 == firstSig(tokens, token_index + 1) + 1 [C01]
 
 //@ func parse_string [C08 C15]
 //@   noframe
